@@ -180,6 +180,46 @@ func init() {
 	})
 }
 
+func init() {
+	register("C04", &Property{
+		Title: "Stroke and Offset realise exact distance offsets of the path",
+		Explanation: "Decides one clause only, 'closed subpaths are joined, not capped' (and its dual: open sub-paths are capped iff stroking): in (*Path).offset the closed flag is set exactly by a Close command, every Capper call is control-dependent on !closed && strokeOpen and placed at the two ends, the Joiner wraps around from the last to the first segment when closed, the closed branch closes both offset curves, and Stroke/Offset pass strokeOpen true/false; plus the angle-unit consistency of the arc rotation passed to ArcTo (E8, whole package). NOT decided: every distance clause (w/2 neighbourhood, miter limit, inner-bend repair, offset direction).",
+		Run: func(c *core.Ctx, r *core.Report) {
+			E11CapJoin(c, r)
+			E8Units(c, r)
+		},
+	})
+	register("C05", &Property{
+		Title: "Dashing cuts the path by arc length according to the pattern",
+		Explanation: "Decides two structural clauses: (1) 'independently for every subpath': in Dash the only variable carried across iterations of the sub-path loop is the output accumulator and every iteration restarts from (i0, pos0); (2) pieces cut by SplitAt are made relative to the previous cut in every curve case (E11.cut-carried), read the sub-path's own data (E2 cursor domain) and keep the arc rotation in consistent units (E8). NOT decided: every arithmetic clause (phase, period, offsets, arc-length inversion, piece order, joining of closed sub-paths, degenerate patterns). Argument mutation by Dash is decided under C10/C15.",
+		Run: func(c *core.Ctx, r *core.Report) {
+			E11DashIndependence(c, r)
+			E11CutCarried(c, r)
+			E2CursorDomain(c, r, map[string]bool{"Path.SplitAt": true, "Path.Dash": true, "Path.Length": true, "Path.Split": true})
+			E8Units(c, r)
+		},
+	})
+}
+
+func init() {
+	register("C18", &Property{
+		Title: "Embedded fonts and glyph paths reproduce the laid-out text",
+		Explanation: "Decides two structural clauses: (1) 'the glyph subsetter assigns each used glyph one stable code with .notdef at zero' — the constructor and Get/List have exactly the hit/miss/append shape; (2) fonts used for vertical text are kept in their own map and written with the matching vertical flag (Identity-V vs Identity-H), every font map that reserves an object is written in Close, and every Tf operand names a font registered in the page's resources (E5 font-map and resource rules). NOT decided: outlines, advances, the W array, ToUnicode contents, glyph placement in toPath.",
+		Run: func(c *core.Ctx, r *core.Report) {
+			E11Subsetter(c, r)
+			E5FontMaps(c, r)
+			E5Resources(c, r)
+		},
+	})
+	register("C19", &Property{
+		Title: "Imported SVG documents draw the geometry the SVG specifies",
+		Explanation: "Decides the unit and coverage tables of the importer for every document: parseDimension's factors equal the CSS absolute-unit and angle tables (constant folding); the canvas size is in millimetres on every branch (explicit width/height and viewBox fallback use the same px→mm factor) and init uses the inverse factor, the y-down coordinate system and the size/viewBox user-unit scale (px→mm without a viewBox); drawShape has a case for each basic shape; the path data parser's index guards and explicit-panic freedom are decided under C11. NOT decided: styling precedence, CSS selectors, transform order, per-element geometry, the write/read round trip.",
+		Run: func(c *core.Ctx, r *core.Report) {
+			E11SVGUnits(c, r)
+		},
+	})
+}
+
 // c20APIRoots is the concurrent/deterministic API set derived from the text of C20.
 func c20APIRoots(c *core.Ctx) []*ssa.Function {
 	var out []*ssa.Function
